@@ -385,6 +385,20 @@ def run(ctx) -> None:
     n_max = {"quick": 1200, "thorough": 20000}[ctx.tier]
     done = 0
     programs = 0
+    if ctx.shard in (2, 9):
+        # wide entries: a 14-bit non-contiguous wildcard (16384 networks) above a contiguous subnet of it and a small
+        # non-contiguous wildcard inside that subnet (chains of covers; products of several hundred thousand network pairs)
+        lines = {2: ["permit ip 10.0.0.0 63.255.0.255 any", "permit ip 10.5.0.0 0.0.0.255 any", "deny ip 10.5.0.7 0.0.0.0 any",
+                     "permit ip 10.5.0.0 0.0.0.182 any", "permit ip 10.6.1.0 0.0.0.255 any"],
+                 9: ["deny tcp any 172.16.0.0 0.15.85.170 eq 80", "deny tcp any 172.16.0.0 0.15.85.170 eq 80",
+                     "permit tcp any 172.17.1.2 0.0.0.0 eq 80", "deny tcp any 172.18.0.0 0.1.84.34 eq 80",
+                     "deny tcp any host 172.18.4.2 eq 80"]}[ctx.shard]
+        case = {"platform": "ios", "text": grammar.acl_header("ios", "WIDE") + "\n" + "\n".join("  " + ln for ln in lines),
+                "members": {}, "group_by": "", "skip": None}
+        execute(ctx, case)
+        ctx.count("wide_chains")
+        ctx.judged(sig=("wide-chain", ctx.shard), nontrivial=True, sample=case)
+        done += 1
     while done < n_max and not ctx.expired():
         platform = rng.choice(["ios", "nxos"])
         case = gen_case(rng, platform)
